@@ -339,6 +339,17 @@ type MethodSetCheck struct {
 	Where                       string
 }
 
+// FlagMapCheck: every command-line flag registered in Funcs reaches exactly the leaf field of the
+// configuration struct Type that it names (prefix Strip removed), with a matching kind, and
+// every leaf field has the same key for the file decoder (mapstructure) and the file writer (yaml).
+type FlagMapCheck struct {
+	Pkg, Type, Strip string
+	Funcs            []string
+	Exempt           []string
+	Props            []string
+	Where            string
+}
+
 // RecvOnlyCheck: in package Pkg, receives from the channel field Chan occur only in Funcs.
 type RecvOnlyCheck struct {
 	Pkg, Chan string
@@ -359,6 +370,7 @@ type SpecDB struct {
 	Distinct   []*DistinctCheck
 	RecvOnly   []*RecvOnlyCheck
 	MethodSets []*MethodSetCheck
+	FlagMaps   []*FlagMapCheck
 	Contracts  map[string]*Contract
 	Funcs      map[string]*SpecFunc
 	Records    map[string]*Record
@@ -373,7 +385,7 @@ func NewSpecDB() *SpecDB {
 }
 
 var clauseKW = map[string]bool{"fresh": true, "requires": true, "ensures": true, "modifies": true, "crash_inv": true, "loop": true, "observe": true, "param": true, "trusted": true, "nopanic": true, "pure": true, "noinline": true, "inline": true, "property": true, "assert": true}
-var topKW = map[string]bool{"distinct": true, "recvonly": true, "methodset": true, "func": true, "package": true, "record": true, "spec": true, "model": true, "pred": true, "axiom": true}
+var topKW = map[string]bool{"distinct": true, "recvonly": true, "methodset": true, "flagmap": true, "func": true, "package": true, "record": true, "spec": true, "model": true, "pred": true, "axiom": true}
 
 // LoadFile parses one contract file. pkgPath is the import path the file's functions live in
 // (overridden by `//@ package` lines).
@@ -530,6 +542,29 @@ func (db *SpecDB) LoadFile(file, pkgPath string) error {
 				}
 			}
 			db.RecvOnly = append(db.RecvOnly, rc)
+			cur = nil
+		case "flagmap":
+			// flagmap Config in AddFlags, AddGlobalFlags strip "rollkit." exempt home, x.y property Cxx
+			fm := &FlagMapCheck{Pkg: pkgPath, Where: where}
+			mode := ""
+			for i, w := range fs[1:] {
+				w = strings.Trim(strings.TrimSuffix(w, ","), `"`)
+				switch {
+				case i == 0:
+					fm.Type = w
+				case w == "in" || w == "strip" || w == "exempt" || w == "property":
+					mode = w
+				case mode == "in":
+					fm.Funcs = append(fm.Funcs, w)
+				case mode == "strip":
+					fm.Strip = w
+				case mode == "exempt":
+					fm.Exempt = append(fm.Exempt, w)
+				case mode == "property":
+					fm.Props = append(fm.Props, w)
+				}
+			}
+			db.FlagMaps = append(db.FlagMaps, fm)
 			cur = nil
 		case "methodset":
 			// methodset *T Method declared-on T property Cxx ...
